@@ -54,6 +54,9 @@ def run(F, R):
     # transmit with a token read from the used ring, the buffer is looked up by that token (shared with C07.T5)
     from .C07 import t5_token_provenance
     t5_token_provenance(F, R, M, rule='S5', only=lambda bb: 'device::net' in bb['id'])
+    # S6: the receive / transmit queues run in the negotiated modes (C08.H3)
+    from .C08 import queue_modes_rule
+    queue_modes_rule(F, R, M, 'S6', ['device::net'])
 
 
 def sizeofs(t):
